@@ -128,7 +128,7 @@ func runC19System(e *Engine, g G, o RunOpt) RunInfo {
 	})
 	info := RunInfo{Scenario: sc, Nontrivial: up}
 	for _, p := range e.Panics {
-		e.Violate("C19", "system:panic", "%s: %s", p.Where, p.Value)
+		e.Violate("C19", "system:panic:"+panicSite(p), "%s: %s\n%s", p.Where, p.Value, clip(p.Stack, 2500))
 	}
 	if !up {
 		e.Probe("precondition_failed")
